@@ -339,6 +339,16 @@ def to_string(value: JSValue) -> str:
     return "[object Object]"
 
 
+def array_index(key: str) -> Optional[int]:
+    """The array index a property key denotes ("0", "1", ... in canonical form), or None."""
+    if not key or len(key) > 10 or not key.isascii() or not key.isdigit():
+        return None
+    if len(key) > 1 and key[0] == "0":
+        return None
+    index = int(key)
+    return index if index < 2**32 - 1 else None
+
+
 class JSObject:
     """JavaScript object."""
 
@@ -347,6 +357,7 @@ class JSObject:
         self._getters: Dict[str, Any] = {}  # property name -> getter function
         self._setters: Dict[str, Any] = {}  # property name -> setter function
         self._prototype = prototype
+        self._non_enumerable: Optional[set] = None  # own keys hidden from enumeration
 
     def get(self, key: str) -> JSValue:
         """Get a property value (does not invoke getters - use get_property for that)."""
@@ -373,31 +384,70 @@ class JSObject:
         return None
 
     def define_getter(self, key: str, getter: Any) -> None:
-        """Define a getter for a property."""
+        """Define a getter for a property (the property becomes an accessor)."""
+        self._properties.pop(key, None)
         self._getters[key] = getter
 
     def define_setter(self, key: str, setter: Any) -> None:
-        """Define a setter for a property."""
+        """Define a setter for a property (the property becomes an accessor)."""
+        self._properties.pop(key, None)
         self._setters[key] = setter
 
     def set(self, key: str, value: JSValue) -> None:
-        """Set a property value."""
+        """Set an own data property."""
+        if self._getters or self._setters:
+            self._getters.pop(key, None)
+            self._setters.pop(key, None)
         self._properties[key] = value
 
+    def set_hidden(self, key: str, value: JSValue) -> None:
+        """Set an own data property that enumeration skips (like `constructor`)."""
+        self.set(key, value)
+        self.hide(key)
+
+    def hide(self, key: str, hidden: bool = True) -> None:
+        """Make an own property non-enumerable (or enumerable again)."""
+        if hidden:
+            if self._non_enumerable is None:
+                self._non_enumerable = set()
+            self._non_enumerable.add(key)
+        elif self._non_enumerable is not None:
+            self._non_enumerable.discard(key)
+
     def has(self, key: str) -> bool:
-        """Check if object has own property."""
+        """Check if object has an own data property."""
         return key in self._properties
 
+    def has_own(self, key: str) -> bool:
+        """Check if object has an own property (data or accessor)."""
+        return key in self._properties or key in self._getters or key in self._setters
+
     def delete(self, key: str) -> bool:
-        """Delete a property."""
+        """Delete an own property."""
+        found = False
         if key in self._properties:
             del self._properties[key]
-            return True
-        return False
+            found = True
+        if key in self._getters:
+            del self._getters[key]
+            found = True
+        if key in self._setters:
+            del self._setters[key]
+            found = True
+        if self._non_enumerable is not None:
+            self._non_enumerable.discard(key)
+        return found
 
     def keys(self) -> List[str]:
-        """Get own enumerable property keys."""
-        return list(self._properties.keys())
+        """Get own enumerable property keys (data and accessor properties)."""
+        result = list(self._properties.keys())
+        for accessors in (self._getters, self._setters):
+            for key in accessors:
+                if key not in self._properties and key not in result:
+                    result.append(key)
+        if self._non_enumerable:
+            result = [key for key in result if key not in self._non_enumerable]
+        return result
 
     def __repr__(self) -> str:
         return f"JSObject({self._properties})"
@@ -434,6 +484,18 @@ class JSArray(JSObject):
             self._elements = self._elements[:value]
         else:
             self._elements.extend([UNDEFINED] * (value - len(self._elements)))
+
+    def has_own(self, key: str) -> bool:
+        if key == "length":
+            return True
+        index = array_index(key)
+        if index is not None:
+            return index < len(self._elements)
+        return super().has_own(key)
+
+    def keys(self) -> List[str]:
+        """Own enumerable keys: the indices, then the other properties."""
+        return [str(i) for i in range(len(self._elements))] + super().keys()
 
     def get_index(self, index: int) -> JSValue:
         if 0 <= index < len(self._elements):
@@ -479,6 +541,8 @@ class JSFunction:
         self.params = params
         self.bytecode = bytecode
         self.closure_vars = closure_vars or {}
+        # Own properties of the function object (F.prototype, F.anything = ...)
+        self.properties = JSObject()
 
     def __repr__(self) -> str:
         return f"[Function: {self.name}]" if self.name else "[Function (anonymous)]"
